@@ -26,7 +26,7 @@ var lastDesc string
 // the run's seed because the simulated CPU cost per step differs between the levels
 // (level B needs the raftkvs bootstrap packages instrumented: the driver says so)
 func isLevelB(seed uint64) bool {
-	return os.Getenv("VERIF_C09_LEVELB") == "1" && sim.SplitMix64(seed^0xb09)%12 == 0
+	return os.Getenv("VERIF_C09_LEVELB") == "1" && sim.SplitMix64(seed^0xb09)%4 == 0
 }
 
 func configure(seed uint64, tier string) sim.RunConfig {
